@@ -12,6 +12,7 @@ import TzVerif.Model.TimeZone
 import TzVerif.Spec.Zone
 import TzVerif.Proofs.ZoneNew
 import TzVerif.Proofs.SrcEqZone
+import TzVerif.Proofs.SrcEqTzFileAux
 
 namespace TzVerif.C13
 open TzVerif.Model
@@ -92,5 +93,16 @@ theorem translated_source_is_the_model :
 theorem accepts_iff_src (z : TimeZone) (hr : Spec.LeapInRange z.leapSeconds) (hc : Proofs.SrcEq.CorrectionsI32 z.leapSeconds) :
     Src.TimeZoneRef.check_inputs z = .ok () ↔ Spec.WFZone z := by
   rw [Proofs.SrcEq.check_inputs_eq z hc]; exact accepts_iff z hr
+
+/-- the translated constructor equals the model's for ALL arguments (no range hypothesis on the corrections: both
+    sides refuse a first correction outside ±1 and saturate differences alike) -/
+theorem translated_constructor_is_the_model :
+    (∀ z : TimeZone, Src.TimeZoneRef.check_inputs z = z.checkInputs) ∧
+    (∀ ts tys ls r, Src.TimeZoneRef.new ts tys ls r = TimeZone.new ts tys ls r) :=
+  ⟨Proofs.SrcEq.check_inputs_eq', Proofs.SrcEq.zone_new_eq'⟩
+
+theorem accepts_iff_src' (z : TimeZone) (hr : Spec.LeapInRange z.leapSeconds) :
+    Src.TimeZoneRef.check_inputs z = .ok () ↔ Spec.WFZone z := by
+  rw [Proofs.SrcEq.check_inputs_eq' z]; exact accepts_iff z hr
 
 end TzVerif.C13
